@@ -92,7 +92,17 @@ int main(int argc, char** argv) {
             for (const auto& R : sc["regions"]) {
                 // ---------------- oil
                 const auto& o = R["oil"];
-                if (o["kind"] == "PVDO") {
+                if (o["kind"] == "PVCDO") {
+                    // constant compressibility oil: the record is the only node
+                    const auto& w = o["row"];
+                    const double pref = P(w[0]), Bo = w[1], muo = MU(w[3]);
+                    node("oil.invB", reg, 1.0 / Bo, oil.inverseFormationVolumeFactor(reg, T, pref, 0.0));
+                    node("oil.mu", reg, muo, oil.viscosity(reg, T, pref, 0.0));
+                    const double q = pref * 1.3, dp = 1e-5 * pref;
+                    const Eval bE = oil.inverseFormationVolumeFactor(reg, Eval(T), Eval::createVariable(q, 0), Eval(0.0));
+                    const double fd = (oil.inverseFormationVolumeFactor(reg, T, q + dp, 0.0) - oil.inverseFormationVolumeFactor(reg, T, q - dp, 0.0)) / (2 * dp);
+                    slope("oil.dinvB/dp", reg, bE.derivative(0), fd, 0.0);
+                } else if (o["kind"] == "PVDO") {
                     const auto& rows = o["rows"];
                     for (std::size_t i = 0; i < rows.size(); ++i) {
                         const double p = P(rows[i][0]), B = rows[i][1], mu = MU(rows[i][2]);
